@@ -341,6 +341,15 @@ func (fr *Frame) applyContract(v ssa.Value, ct *Contract, name string, c *ssa.Ca
 			}
 		}
 	}
+	for _, l := range ct.PostLocals {
+		e2 := *penv
+		e2.where = l.Line
+		t, err := e2.Parse(l.Expr)
+		if err != nil {
+			panic(&exprError{err.Error()})
+		}
+		penv.vars[l.Var] = t
+	}
 	for _, s := range ct.Sets {
 		e2 := *penv
 		e2.st = pre // right-hand sides read the pre-state (results are bound)
